@@ -304,6 +304,14 @@ func runSingle(t *testing.T, sc scenario, ch *sched.Chooser) (res sched.Result) 
 			return n
 		}
 		// listener sequences
+		stepOf := map[int64]int{}
+		for _, evn := range log {
+			stepOf[evn.Seq] = evn.Step
+		}
+		// before(a,b): event a is ordered before event b by the controller (strictly earlier step);
+		// events of different goroutines inside one step are natively unordered and never compared
+		before := func(a, b int64) bool { return stepOf[a] < stepOf[b] }
+		_ = before
 		seqs := map[string][]string{}
 		seqSeq := map[string][]int64{}
 		open := map[string]string{}
@@ -424,7 +432,7 @@ func runSingle(t *testing.T, sc scenario, ch *sched.Chooser) (res sched.Result) 
 						decided = seqSeq["L0"][i]
 					}
 				}
-				if rSeq != 0 && (decided == 0 || rSeq < decided) {
+				if rSeq != 0 && (decided == 0 || before(rSeq, decided)) {
 					fail("waiter-early", "AwaitRunning returned before Running was reached or ruled out")
 				}
 				if rTxt == "AwaitRunning -> nil=true" && reachedRunning == 0 {
@@ -437,7 +445,7 @@ func runSingle(t *testing.T, sc scenario, ch *sched.Chooser) (res sched.Result) 
 				if n := len(seqSeq["L0"]); n > 0 {
 					termSeq = seqSeq["L0"][n-1]
 				}
-				if tSeq != 0 && tSeq < termSeq {
+				if tSeq != 0 && before(tSeq, termSeq) {
 					fail("waiter-early", "AwaitTerminated returned before a terminal state was notified")
 				}
 			}
@@ -466,7 +474,7 @@ func runSingle(t *testing.T, sc scenario, ch *sched.Chooser) (res sched.Result) 
 				addedSeq, removingSeq, removedSeq := seqOf("L2 added"), seqOf("L2 removing"), seqOf("L2 removed")
 				mustSee := 0
 				for i := range l0 {
-					if addedSeq != 0 && seqSeq["L0"][i] > addedSeq && (removingSeq == 0) {
+					if addedSeq != 0 && before(addedSeq, seqSeq["L0"][i]) && (removingSeq == 0) {
 						mustSee++
 					}
 				}
@@ -474,7 +482,7 @@ func runSingle(t *testing.T, sc scenario, ch *sched.Chooser) (res sched.Result) 
 					fail("late-listener-miss", "late listener saw %v but %d transitions happened after its registration (%v)", l2, mustSee, l0)
 				}
 				for _, s := range seqSeq["L2"] {
-					if removedSeq != 0 && s > removedSeq {
+					if removedSeq != 0 && before(removedSeq, s) {
 						fail("late-listener-after-remove", "listener called after its removal returned")
 					}
 				}
@@ -541,6 +549,248 @@ func TestC17Single(t *testing.T) {
 			b--
 		}
 		x := &sched.Explorer{Bound: b, Report: rep, Deadline: deadline, Scenario: sc.fullName(), Run: func(c *sched.Chooser) sched.Result { return runSingle(t, sc, c) }}
+		if !x.Explore() {
+			rep.NotExhaustive("deadline or violation cap in " + sc.fullName())
+			break
+		}
+		rep.Add("scenarios_completed", 1)
+		if x.Execs > 50 {
+			rep.Sample(fmt.Sprintf("%s: %d executions, %d distinct outcomes", sc.fullName(), x.Execs, x.Outcomes()))
+		}
+	}
+	if err := rep.Write(); err != nil {
+		t.Fatal(err)
+	}
+}
+
+// ---------------- manager ----------------
+
+type mlst struct{}
+
+func (mlst) Healthy()                   { sched.Obs("ML Healthy") }
+func (mlst) Stopped()                   { sched.Obs("ML Stopped") }
+func (mlst) Failure(s services.Service) { sched.Obs("ML Failure " + services.DescribeService(s)) }
+
+type mscenario struct {
+	name  string
+	svcs  [][3]int // outcome vector per service
+	stop  bool
+	watch bool // FailureWatcher on the manager
+}
+
+func (m mscenario) fullName() string {
+	var p []string
+	for _, o := range m.svcs {
+		p = append(p, fmt.Sprintf("%s/%s/%s", oName[o[0]], oName[o[1]], oName[o[2]]))
+	}
+	return fmt.Sprintf("%s[%s stop=%v watch=%v]", m.name, strings.Join(p, " | "), m.stop, m.watch)
+}
+
+func runManager(t *testing.T, sc mscenario, ch *sched.Chooser) (res sched.Result) {
+	synctest.Test(t, func(t *testing.T) {
+		e := sched.NewExec(ch)
+		e.MaxSteps = 6000
+		e.DelayBounded = true
+		ctx, cancel := context.WithCancel(context.Background())
+		defer cancel()
+		var probes []*svcProbe
+		var svcs []services.Service
+		for i, o := range sc.svcs {
+			p := &svcProbe{sc: scenario{start: o[0], run: o[1], stop: o[2]}, name: string(rune('A'+i)) + ":"}
+			s := p.build()
+			s.WithName(p.name)
+			s.AddListener(lst{name: p.name + "L0"})
+			probes = append(probes, p)
+			svcs = append(svcs, s)
+		}
+		m, err := services.NewManager(svcs...)
+		if err != nil {
+			panic(err)
+		}
+		m.AddListener(mlst{})
+		var fw *services.FailureWatcher
+		fwDone := make(chan struct{})
+		if sc.watch {
+			fw = services.NewFailureWatcher()
+			fw.WatchManager(m)
+			go func() {
+				defer close(fwDone)
+				for err := range fw.Chan() {
+					sched.Obs("FW " + err.Error())
+				}
+			}()
+		}
+		e.Enable()
+		e.Go("a-mstart", func() { err := m.StartAsync(ctx); sched.Obs(fmt.Sprintf("m.StartAsync -> err=%v", err != nil)) })
+		if sc.stop {
+			e.Go("b-mstop", func() { sched.Obs("m.stop-request"); m.StopAsync() })
+		}
+		e.Go("w-healthy", func() {
+			err := m.AwaitHealthy(context.Background())
+			sched.Obs(fmt.Sprintf("AwaitHealthy -> nil=%v", err == nil))
+		})
+		e.Go("w-stopped", func() {
+			err := m.AwaitStopped(context.Background())
+			sched.Obs(fmt.Sprintf("AwaitStopped -> nil=%v", err == nil))
+		})
+		status := e.Run()
+		leftover := e.Parked()
+		canon := e.CanonLog()
+		traceCopy := append([]string{}, e.Trace...)
+		log := e.Events()
+		e.Disable()
+		synctest.Wait()
+		var viol, key string
+		fail := func(k, f string, a ...any) {
+			if viol == "" {
+				viol, key = fmt.Sprintf(f, a...), k
+			}
+		}
+		count := func(pfx string) (n int, first int64, last int64) {
+			for _, evn := range log {
+				if strings.HasPrefix(evn.Text, pfx) {
+					n++
+					if first == 0 {
+						first = evn.Seq
+					}
+					last = evn.Seq
+				}
+			}
+			return
+		}
+		if status != "done" {
+			// services whose running function blocks keep running until stopped: without a stop request the
+			// execution legitimately ends with everything parked in native waits
+			blocked := false
+			for _, o := range sc.svcs {
+				if (o[1] == oBlock || o[1] == oAbsent || o[0] == oBlock) && !sc.stop {
+					blocked = true
+				}
+			}
+			if !blocked || len(leftover) > 0 {
+				fail("deadlock", "execution did not finish: status=%s parked=%v log=%v", status, leftover, canon)
+			}
+		}
+		allTerminal := true
+		allRan := true
+		failed := 0
+		for i, s := range svcs {
+			st := s.State()
+			if st != services.Terminated && st != services.Failed {
+				allTerminal = false
+			}
+			if st == services.Failed {
+				failed++
+			}
+			if n, _, _ := count(probes[i].name + "L0 Running"); n == 0 {
+				allRan = false
+			}
+			var seq []string
+			for _, evn := range log {
+				if strings.HasPrefix(evn.Text, probes[i].name+"L0 ") {
+					seq = append(seq, strings.TrimPrefix(evn.Text, probes[i].name+"L0 "))
+				}
+			}
+			if !legalSequence(seq) {
+				fail("illegal-transitions", "service %s: illegal transition sequence %v", probes[i].name, seq)
+			}
+		}
+		nH, _, _ := count("ML Healthy")
+		nS, sSeq, _ := count("ML Stopped")
+		nF, _, fLast := count("ML Failure")
+		if nH > 1 || nS > 1 {
+			fail("dup-event", "manager listener got Healthy %d times, Stopped %d times", nH, nS)
+		}
+		if nH == 1 && !allRan {
+			fail("healthy-wrong", "manager reported Healthy although a service never ran: %v", canon)
+		}
+		if viol == "" && (status == "done" || allTerminal) {
+			if allTerminal != m.IsStopped() {
+				fail("stopped-wrong", "IsStopped=%v but all services terminal=%v", m.IsStopped(), allTerminal)
+			}
+			if allTerminal && m.IsHealthy() {
+				fail("healthy-wrong", "IsHealthy although every service is terminal")
+			}
+			if allTerminal && nS != 1 {
+				fail("stopped-missing", "all services terminal but Stopped notified %d times", nS)
+			}
+			if !allTerminal && nS != 0 {
+				fail("stopped-early", "Stopped notified although a service is not terminal")
+			}
+			if nF != failed && allTerminal {
+				fail("failure-count", "%d services failed, %d Failure notifications", failed, nF)
+			}
+			if nS == 1 && nF > 0 && fLast > sSeq {
+				fail("failure-after-stopped", "Failure notified after Stopped")
+			}
+			hTxt, hRet := "", int64(0)
+			sTxtN, _, sRet := count("AwaitStopped ->")
+			for _, evn := range log {
+				if strings.HasPrefix(evn.Text, "AwaitHealthy ->") {
+					hTxt, hRet = evn.Text, evn.Seq
+				}
+			}
+			if allTerminal && (hRet == 0 || sTxtN == 0) {
+				fail("waiter-stuck", "manager waiters did not return although all services are terminal (healthy:%q stopped:%d)", hTxt, sTxtN)
+			}
+			if hTxt == "AwaitHealthy -> nil=true" && nH == 0 {
+				// Healthy is notified under the manager lock before AwaitHealthy can observe the state
+				fail("await-healthy-wrong", "AwaitHealthy returned nil but Healthy was not reached before")
+			}
+			if hTxt == "AwaitHealthy -> nil=false" && !allRan {
+				// fine
+			}
+			// (the stopped channel is closed before listeners are notified, so AwaitStopped and the Stopped
+			// callback are unordered; only "all services terminal" is required, which allTerminal asserts)
+			_ = sRet
+			if sc.watch && allTerminal {
+				if n, _, _ := count("FW "); n != failed {
+					fail("watcher-count", "failure watcher delivered %d errors for %d failed services", n, failed)
+				}
+			}
+		}
+		res = sched.Result{Violation: viol, Key: key, Outcome: fmt.Sprintf("H%d S%d F%d term=%v", nH, nS, nF, allTerminal), Trace: append(traceCopy, canon...)}
+		cancel()
+		m.StopAsync()
+		synctest.Wait()
+		if fw != nil {
+			fw.Close()
+			<-fwDone
+		}
+		e.Teardown()
+	})
+	return
+}
+
+func TestC17Manager(t *testing.T) {
+	rep := ev.NewReport("C17", "manager")
+	bound := 2
+	if ev.Thorough() {
+		bound = 3
+	}
+	if b := os.Getenv("VERIF_BOUND"); b != "" {
+		fmt.Sscan(b, &bound)
+	}
+	vecs := [][3]int{{oNil, oBlock, oNil}, {oErr, oNil, oNil}, {oNil, oErr, oNil}, {oNil, oNil, oErr}}
+	var scs []mscenario
+	for _, a := range vecs {
+		for _, b := range vecs {
+			scs = append(scs, mscenario{name: "m2", svcs: [][3]int{a, b}, stop: true})
+		}
+	}
+	scs = append(scs, mscenario{name: "m2-watch", svcs: [][3]int{vecs[0], vecs[2]}, stop: true, watch: true},
+		mscenario{name: "m2-watch", svcs: [][3]int{vecs[1], vecs[2]}, stop: false, watch: true},
+		mscenario{name: "m2-nostop", svcs: [][3]int{vecs[2], vecs[3]}, stop: false},
+		mscenario{name: "m1", svcs: [][3]int{vecs[0]}, stop: true})
+	if ev.Thorough() {
+		scs = append(scs, mscenario{name: "m3", svcs: [][3]int{vecs[0], vecs[2], vecs[0]}, stop: true},
+			mscenario{name: "m3", svcs: [][3]int{vecs[1], vecs[0], vecs[3]}, stop: true})
+	}
+	rep.Bound = fmt.Sprintf("%d manager scenarios: 1..2 (thorough 3) services with outcome vectors from {run blocks, start fails, run fails, stop fails}², StartAsync / StopAsync / AwaitHealthy / AwaitStopped threads, a manager listener, optionally a FailureWatcher; all schedules with <= %d delays (delay-bounded: every departure from the deterministic default order, also at blocking points, costs one) over the hook points of services/*.go", len(scs), bound)
+	rep.Rule = "stateless DFS on the real Manager; oracle: Healthy/Stopped at most once, Healthy only if every service ran, Stopped iff all terminal, one Failure per failed service and none after Stopped, waiters return with the right answer, no deadlock, no crash; distinct_nontrivial = distinct (scenario, #Healthy, #Stopped, #Failure)"
+	deadline := ev.Deadline(8 * time.Minute)
+	for _, sc := range scs {
+		x := &sched.Explorer{Bound: bound, Report: rep, Deadline: deadline, Scenario: sc.fullName(), Run: func(c *sched.Chooser) sched.Result { return runManager(t, sc, c) }}
 		if !x.Explore() {
 			rep.NotExhaustive("deadline or violation cap in " + sc.fullName())
 			break
